@@ -189,6 +189,14 @@ func vfTypesC01() []*vfDT {
 				if pat == 2 && i%2 == 0 {
 					s = ""
 				}
+				// bytes, not text: Latin-1 and arbitrary high bytes (not well-formed UTF-8), and
+				// multi-byte UTF-8 that the field size cuts in the middle of a character
+				if pat == 2 && i%4 == 1 {
+					s = "\xe9\xff\xfe\x01z"
+				}
+				if pat == 0 && i%3 == 2 {
+					s = "ab\u00e9\u6e29\u00b0"[i%2:]
+				}
 				if len(s) > size {
 					s = s[:size]
 				}
